@@ -19,13 +19,6 @@ static const int _PrintableString_alphabet[256] = {
  0,49,50,51,52,53,54,55,56,57,58,59,60,61,62,63,	/*  abcdefghijklmno */
 64,65,66,67,68,69,70,71,72,73,74, 0, 0, 0, 0, 0,	/* pqrstuvwxyz      */
 };
-static const int _PrintableString_code2value[74] = {
-32,39,40,41,43,44,45,46,47,48,49,50,51,52,53,54,
-55,56,57,58,61,63,65,66,67,68,69,70,71,72,73,74,
-75,76,77,78,79,80,81,82,83,84,85,86,87,88,89,90,
-97,98,99,100,101,102,103,104,105,106,107,108,109,110,111,112,
-113,114,115,116,117,118,119,120,121,122};
-
 /*
  * PrintableString basic type description.
  */
@@ -33,19 +26,10 @@ static const ber_tlv_tag_t asn_DEF_PrintableString_tags[] = {
 	(ASN_TAG_CLASS_UNIVERSAL | (19 << 2)),	/* [UNIVERSAL 19] IMPLICIT ...*/
 	(ASN_TAG_CLASS_UNIVERSAL | (4 << 2))	/* ... OCTET STRING */
 };
-static int asn_DEF_PrintableString_v2c(unsigned int value) {
-	return _PrintableString_alphabet[value > 255 ? 0 : value] - 1;
-}
-static int asn_DEF_PrintableString_c2v(unsigned int code) {
-	if(code < 74)
-		return _PrintableString_code2value[code];
-	return -1;
-}
 static asn_per_constraints_t asn_DEF_PrintableString_per_constraints = {
-	{ APC_CONSTRAINED, 4, 4, 0x20, 0x39 },	/* Value */
+	{ APC_CONSTRAINED, 7, 7, 0x20, 0x7a },	/* Value */
 	{ APC_SEMI_CONSTRAINED, -1, -1, 0, 0 },	/* Size */
-	asn_DEF_PrintableString_v2c,
-	asn_DEF_PrintableString_c2v
+	0, 0	/* No PER character map necessary: (32..122) fits 7 bits */
 };
 asn_TYPE_operation_t asn_OP_PrintableString = {
 	OCTET_STRING_free,
